@@ -27,8 +27,7 @@ CLAIMED = {
                 ref='DESIGN.md §3 C10'),
     'C22': dict(text='one event (any button id/pressed flag or any JOYP write) from every controller state satisfying the proved invariant, then a JOYP read, against a table-driven reference; equals the closure over all histories',
                 ref='DESIGN.md §3 C22'),
-    'C12': dict(text='k machine cycles (k=6 quick, 10 thorough) of the real timer from every counter phase/TAC/TIMA/TMA, one symbolic CPU access per cycle, '
-                     'equal to a reference DMG timer at every cycle boundary, for all values at once (solver verdict, not sampling)',
+    'C12': dict(text='(inductive) one machine cycle - any CPU access kind and value, then the tick - from every pair of states related by a simulation relation between the implementation and a reference DMG timer: DIV/TIMA/TMA/TAC agree afterwards and the relation is preserved, and New() establishes it, so the agreement holds for schedules of any length; (bounded) k machine cycles (k=6 quick, 10 thorough) from every counter phase with one symbolic access per cycle, compared at every cycle boundary, which additionally pins exactly one interrupt per overflow no later than the reload',
                 ref='DESIGN.md §3 C12'),
 }
 
